@@ -342,11 +342,13 @@ class MoneyMarket(FinancialAssetMarket):
         dem_name = 'DEM_' + self.Code
         self.AddVariable(dem_name, 'Total demand for ' + self.LongName,'')
         dem_terms = []
+        num_issuers = 0
         for s in self.SearchListSource.GetSectors():
             if not s.HasF:
                 continue
             if s.Code == self.IssuerShortCode:
                 Logger('Found Issuer', priority=3)
+                num_issuers += 1
                 s.AddVariable('SUP_' + self.Code, 'Supply of ' + self.LongName, self.GetVariableName(dem_name))
                 self.AddVariable('SUP_' + self.Code, 'Supply of ' + self.LongName,
                                  s.GetVariableName('SUP_' + self.Code))
@@ -364,6 +366,9 @@ class MoneyMarket(FinancialAssetMarket):
             s.AddVariable(dem_name, 'Demand for ' + self.LongName, s.GetVariableName('F'))
             self.AddTermToEquation(dem_name, s.GetVariableName(dem_name))
             #dem_terms.append(s.GetVariableName(dem_name))
+        if num_issuers != 1:
+            raise LogicError('Market {0} must have exactly one issuer with code {1}; found {2}'.format(
+                self.Code, self.IssuerShortCode, num_issuers))
         #self.AddVariable(dem_name, 'Total demand for ' + self.LongName, utils.create_equation_from_terms(dem_terms))
 
 
@@ -400,10 +405,12 @@ class DepositMarket(FinancialAssetMarket):
         """
         dem_terms = []
         dem_name = 'DEM_' + self.Code
+        num_issuers = 0
         for s in self.SearchListSource.GetSectors():
             if isinstance(s, Market):
                 continue
             if s.Code == self.IssuerShortCode:
+                num_issuers += 1
                 sup_name = 'SUP_' + self.Code
                 s.AddVariable(sup_name, 'Supply of ' + self.LongName, self.GetVariableName('DEM_' + self.Code))
                 s.AddVariable('LAG_' + sup_name, 'Lagged Supply of ' + self.LongName,
@@ -427,6 +434,9 @@ class DepositMarket(FinancialAssetMarket):
                           'Interest received on ' + self.LongName)
             dem_terms.append(s.GetVariableName(dem_name))
         self.AddVariable(dem_name, 'Total demand for ' + self.LongName, utils.create_equation_from_terms(dem_terms))
+        if num_issuers != 1:
+            raise LogicError('Market {0} must have exactly one issuer with code {1}; found {2}'.format(
+                self.Code, self.IssuerShortCode, num_issuers))
 
 
 class GoldStandardCentralBank(CentralBank):
